@@ -60,10 +60,13 @@ func (f *Block) Call(s *slip.Scope, args slip.List, depth int) (result slip.Obje
 	d2 := depth + 1
 	for i := 1; i < len(args); i++ {
 		result = slip.EvalArg(ns, args, i, d2)
-		if rr, _ := result.(*slip.ReturnResult); rr != nil {
-			if ns.Name == rr.Tag {
-				return rr.Result
+		switch tr := result.(type) {
+		case *slip.ReturnResult:
+			if ns.Name == tr.Tag {
+				return tr.Result
 			}
+			return
+		case *GoTo:
 			return
 		}
 	}
